@@ -513,7 +513,7 @@ class SocketExt(_Extension):
             for key, val in options.items():
                 if key[:key.find('_') + 1] not in acceptable_prefixes:
                     raise ValueError("Incorrect options key")
-                if not isinstance(val, int):
+                if isinstance(val, bool) or not isinstance(val, int):
                     raise ValueError("Options value must be an integer")
 
 
